@@ -60,6 +60,8 @@ class Ctl:
         self.progress_clock = 0
         self.extra = {}
         self.stall_timeout = 20
+        self.crash = None
+        self.session = 0
 
     # ---- entity side
     def me(self):
@@ -78,6 +80,18 @@ class Ctl:
         e = self.me()
         if e is None or self.stopped:
             return
+        if e.state == "killed":
+            raise StopSim()
+        if isinstance(label, tuple) and label and label[0] in ("h5", "rename"):
+            e.persist = getattr(e, "persist", 0) + 1
+            cr = self.crash
+            if cr and cr.get("entity") == e.name and e.persist > cr.get("after", 0) and not cr.get("done"):
+                cr["done"] = True
+                with self.cv:
+                    e.state = "killed"
+                    self.log.append(([], e.name, ("crash", e.name)))
+                    self.cv.notify_all()
+                raise StopSim()
         with self.cv:
             e.state = "parked"
             e.label = label
@@ -87,9 +101,19 @@ class Ctl:
             self.cv.notify_all()
             while not e.granted:
                 self.cv.wait()
-                if self.stopped and not e.granted:
+                if (self.stopped or e.state == "killed") and not e.granted:
                     raise StopSim()
+            if e.state == "killed":
+                raise StopSim()
             e.state = "running"
+
+    def kill_all(self):
+        """the submitting process dies: every entity of the current session stops here"""
+        with self.cv:
+            for e in self.ents.values():
+                if e.state != "done":
+                    e.state = "killed"
+            self.cv.notify_all()
 
     def finish(self, ent):
         with self.cv:
@@ -119,8 +143,16 @@ class Ctl:
                 if not enabled:
                     self.verdict = "deadlock"
                     break
-                if len(self.log) >= self.step_limit:
+                if len(self.log) - getattr(self, "session_start", 0) >= self.step_limit:
                     self.verdict = "steplimit"
+                    break
+                cr = self.crash
+                if cr and cr.get("entity") == "ALL" and len(self.log) - getattr(self, "session_start", 0) >= cr.get("at_step", 0):
+                    self.log.append(([], "M", ("crash", "ALL")))
+                    for e in self.ents.values():
+                        if e.state != "done":
+                            e.state = "killed"
+                    self.verdict = "crashed"
                     break
                 if all(getattr(e, "polling", False) and e.poll_streak >= self._cycle(e) for e in enabled):
                     # every enabled entity has completed a full fruitless polling pass since
@@ -454,9 +486,10 @@ class FakePopen:
         CTL.procs.append(self)
         # the parent's socket is the one bound to the port named in argv
         argv = self.args
-        port = argv[argv.index("--zmqport") + 1]
-        srv = CTL.extra["zmq"]._reg["bound"][port]
-        srv.name = "S%d" % self.k
+        if "--zmqport" in argv:
+            port = argv[argv.index("--zmqport") + 1]
+            srv = CTL.extra["zmq"]._reg["bound"][port]
+            srv.name = "S%d" % self.k
         script = [a for a in argv if a.endswith(".py")]
         self.script = os.path.basename(script[0]) if script else None
         self.ent = CTL.register(self.name)
@@ -469,8 +502,12 @@ class FakePopen:
         CTL.bind(self.ent)
         try:
             point(("pbegin",))
-            from executorlib.backend import interactive_serial
-            interactive_serial.main(argument_lst=argv)
+            if self.script in ("cache_serial.py", "cache_parallel.py"):
+                from executorlib.cache.backend import backend_execute_task_in_file
+                backend_execute_task_in_file(file_name=argv[1])
+            else:
+                from executorlib.backend import interactive_serial
+                interactive_serial.main(argument_lst=argv)
         except StopSim:
             pass
         except BaseException as ex:  # noqa
@@ -483,7 +520,9 @@ class FakePopen:
         return self.ent.state not in ("done", "killed")
 
     def poll(self):
-        point(("ppoll", self.name))
+        point(("ppoll", self.name), polling=self.alive())
+        if not self.alive():
+            CTL.progress()
         return None if self.alive() else 0
 
     def communicate(self, input=None, timeout=None):
@@ -502,6 +541,61 @@ class FakePopen:
 
 
 FAKE_SUBPROCESS = types.SimpleNamespace(Popen=FakePopen, DEVNULL=-3, PIPE=-1)
+
+
+def file_tag(path):
+    import re
+    base = os.path.basename(str(path))
+    m = re.match(r"c(\d+)x[0-9a-f]*(\.\w+)$", base)
+    if m:
+        return "k%s%s" % (m.group(1), m.group(2))
+    return base
+
+
+class SimPath:
+    def __init__(self):
+        self.join = os.path.join
+        self.abspath = os.path.abspath
+        self.splitext = os.path.splitext
+        self.basename = os.path.basename
+
+    def exists(self, p):
+        point(("exists", file_tag(p)), polling=not os.path.exists(p))
+        if os.path.exists(p):
+            CTL.progress()
+        return os.path.exists(p)
+
+
+class SimOS:
+    """what the executorlib modules see as `os`: directory operations are points"""
+
+    def __init__(self):
+        self.path = SimPath()
+
+    def makedirs(self, p, exist_ok=False):
+        os.makedirs(p, exist_ok=exist_ok)
+
+    def listdir(self, p):
+        point(("listdir",))
+        return sorted(os.listdir(p))
+
+    def rename(self, a, b):
+        point(("rename", file_tag(a), file_tag(b)))
+        os.rename(a, b)
+
+    def remove(self, p):
+        point(("remove", file_tag(p)))
+        os.remove(p)
+
+    def __getattr__(self, name):
+        return getattr(os, name)
+
+
+def h5_point(op, path, name=None):
+    if name is None:
+        point(("h5", op, file_tag(path)))
+    else:
+        point(("h5", op, file_tag(path), name))
 
 
 def sim_sleep(t):
@@ -540,6 +634,17 @@ def install(schedule, step_limit=4000):
         cs.queue = FAKE_QUEUE_MODULE
         cs.Future = SFuture
         css.subprocess = FAKE_SUBPROCESS
+        css.time = types.SimpleNamespace(sleep=sim_sleep)
+        import executorlib.cache.backend as cb
+        import executorlib.standalone.inputcheck as ic
+        import h5py
+        simos = SimOS()
+        cs.os = simos
+        cb.os = simos
+        sh.os = simos
+        ic.os = simos
+        h5py._point = h5_point
     except Exception:  # noqa
-        pass
+        import traceback
+        CTL.extra["install_error"] = traceback.format_exc()
     return CTL
